@@ -120,6 +120,24 @@ class RawValue(Harness):
                             continue
                         obl.append((f"{how} of a {name} value keeps the value", _same(c2, o)))
                         obl.append((f"{how} of a {name} value keeps the raw value (also when it is falsy)", _same(getattr(c2, "raw_value", None), o.raw_value)))
+                # a whole parsed packet: items, order, raw bytes and cursor
+                pk = lib.packets.CCSDSPacket(raw_data=bv.SymBytes([b0, b1, 7, 9]))
+                pk.raw_data.pos = 11
+                pk["A"] = C.IntParameter(bv.SymInt(v), bv.SymInt(r))
+                pk["B"] = C.StrParameter("LABEL", bv.SymInt(r))
+                for how, fn in (("copy", copy.copy), ("deepcopy", copy.deepcopy)):
+                    try:
+                        c2 = fn(pk)
+                    except Exception as e:   # noqa: BLE001
+                        obl.append((f"{how} of a packet raises nothing ({type(e).__name__})", False))
+                        continue
+                    obl.append((f"{how} of a packet keeps the items in order", list(c2.keys()) == ["A", "B"] and type(c2) is type(pk)))
+                    if list(c2.keys()) == ["A", "B"]:
+                        obl.append((f"{how} of a packet keeps values and raw values", z3.And(*[z3.BoolVal(x) if isinstance(x, bool) else x for x in (
+                            _same(c2["A"], pk["A"]), _same(c2["A"].raw_value, pk["A"].raw_value), _same(c2["B"].raw_value, pk["B"].raw_value))])))
+                    rd = getattr(c2, "raw_data", None)
+                    obl.append((f"{how} of a packet keeps the raw bytes", rd is not None and _same(bv.SymBytes(rd.items), bv.SymBytes(pk.raw_data.items))))
+                    obl.append((f"{how} of a packet keeps the cursor", rd is not None and rd.pos == 11))
                 return result("case8-copyhooks", obl, observe={"cls": "ran"}, inputs=dict(inputs, hooks=hooks))
             if sp:
                 # not a violation of the property by itself: the clauses this technique cannot decide are no longer covered by the
@@ -213,6 +231,15 @@ def concrete(req):
             for fn in (copy.copy, copy.deepcopy, lambda z: pickle.loads(pickle.dumps(z))):
                 c2 = fn(o)
                 ok = ok and type(c2) is type(o) and c2 == o and c2.raw_value == o.raw_value and type(c2.raw_value) is type(o.raw_value)
+        from space_packet_parser import packets as P
+        pk = P.CCSDSPacket(raw_data=b + bytes([7, 9]))
+        pk.raw_data.pos = 11
+        pk["A"] = C.IntParameter(v, r)
+        pk["B"] = C.StrParameter("LABEL", r)
+        for fn in (copy.copy, copy.deepcopy, lambda z: pickle.loads(pickle.dumps(z))):
+            c2 = fn(pk)
+            ok = ok and type(c2) is type(pk) and list(c2.items()) == list(pk.items()) and bytes(c2.raw_data) == bytes(pk.raw_data) \
+                and c2.raw_data.pos == 11 and c2["A"].raw_value == r and c2["B"].raw_value == r
     return {"cls": "ran", "ok": ok}
 
 
